@@ -222,6 +222,18 @@ prop(
     thorough=dict(checks=2000, shards=16),
 )
 
+prop(
+    "C11",
+    title="The root location may be spelled in any equivalent way",
+    technique="property-based testing (rapid), metamorphic oracle: one generated multi-document graph expanded from 3-7 generated equivalent spellings of its root location; error-ness, outputs (bytes when acyclic, bisimulation + cut-points otherwise) and the set of URLs requested from the loader must agree with the canonical spelling, and every requested URL must be canonical",
+    rule=GRAPH_RULE + "The documents are relocated to one of four homes: absolute file URLs, file URLs below the working directory of the test process (so that relative spellings exist), http and https (with port and path prefix). Spellings are made from the canonical URL or a relative path by 1-3 rewrites drawn from: insert ./, insert zz/../, double a slash, upper-case the scheme, append a fragment, append a query (file only), switch between plain path, file:/ and file:///. Not generated because the statement does not list them: host case, default ports, file:name without slash. Non-trivial = at least 3 spellings and some external document requested; distinct by hash of the case",
+    design_ref="DESIGN.md §4 C11",
+    level_text="exploration: every spelling is compared with the canonical one; a requested URL with a fragment, a relative or unclean path, a missing scheme or (for files) a query is reported; the caller's RelativeBase must be unchanged after the call",
+    level_note="relative spellings are taken against the working directory of the test process (documents are served in memory under file://<cwd>/w/...); the replay re-enters that directory",
+    quick=dict(checks=300, shards=4),
+    thorough=dict(checks=2500, shards=16),
+)
+
 
 def manifest():
     allids = []
